@@ -99,7 +99,8 @@ def run_env(spec, rec, lib):
     rng = random.Random(spec["seed"])
     cfg = spec.get("config", "default")
     for i in range(spec["count"]):
-        stratum = "accept" if rng.random() < 0.8 else "mixed"
+        r0 = rng.random()
+        stratum = "accept" if r0 < 0.75 else ("many_signers" if r0 < 0.83 else "mixed")
         case = envelope.gen_case(rng, stratum=stratum)
         # completeness needs junk: force some
         if rng.random() < 0.6:
